@@ -57,6 +57,17 @@ where
         iodriver: IoDriver,
         config: BlobConfig,
     ) -> Result<Self> {
+        // File creation and header write run as a separate task: if the caller's future is dropped
+        // in the middle, the new file still gets its header and never stays as an unparsable blob
+        let task = tokio::spawn(Self::create_with_header(name, iodriver, config));
+        task.await.context("blob creation task failed")?
+    }
+
+    async fn create_with_header(
+        name: FileName,
+        iodriver: IoDriver,
+        config: BlobConfig,
+    ) -> Result<Self> {
         let BlobConfig {
             index: index_config,
             validate_data_during_index_regen,
